@@ -550,14 +550,25 @@ func checkImage(t *testing.T, c *sim.Case, res *sim.Result, prop string, n int, 
 		// recovered state already owns.
 		before := dump
 		nk := int(c.CfgInt("keys", 3))
+		dupID := false
 		track := func() { // the known tie / version-order defects can arise in the second life too
 			if plain {
 				tieKeys(iw, nk, tied)
 			} else {
 				invKeys(iw, nk, tied)
 			}
+			// A table installed under the file id of a table the recovered state owns:
+			// from here on either file can be unlinked under the other's mapping.
+			seen := map[uint64]bool{}
+			for _, tb := range iw.DB.VerifLSM().VerifTables() {
+				if seen[tb.FileID] && !dupID {
+					dupID = true
+					res.Violate(n, "duplicate_table_id", map[string]string{"phase": "second_life"}, "%s: after recovery a new table was installed under file id %d, which a recovered table owns: %s", where, tb.FileID, DescribeTables(iw))
+				}
+				seen[tb.FileID] = true
+			}
 		}
-		for j := 0; j < 3; j++ {
+		for j := 0; j < 3 && !dupID; j++ {
 			key := []byte(fmt.Sprintf("second-life-%d-%d", n, j))
 			if err := iw.DB.SetCF(kv.CFDefault, key, MakeValue(fmt.Sprintf("x%d.%d:", n, j), int64(2+j), iw.Opt.ValueThreshold)); err != nil {
 				break
@@ -567,12 +578,18 @@ func checkImage(t *testing.T, c *sim.Case, res *sim.Result, prop string, n int, 
 			iw.Maint(sim.Op{K: "flushall"})
 			track()
 		}
+		if dupID {
+			return
+		}
 		iw.Maint(sim.Op{K: "compact", A: 0})
 		track()
 		iw.Maint(sim.Op{K: "compactonce"})
 		track()
 		iw.Maint(sim.Op{K: "flushall"})
 		track()
+		if dupID {
+			return
+		}
 		_ = iw.Close()
 		if err := iw.Open(img.dir); err != nil {
 			res.Violate(n, "second_reopen_failed", nil, "%s: after a second life: %v", where, err)
